@@ -319,6 +319,25 @@ def run(rep: Report, tier: str) -> None:
             rep.violation(f"linear accepted constraint {bad!r} (spec: error)", {"cfg": {"op": "linear"}, "name": bad}, key=f"invalid_name:{bad}")
         except (ValueError, TypeError):
             pass
+    # "an unknown constraint name raises ValueError": the valid names are the rules the spec knows (Constraints.tla), everything
+    # else -- in particular every OTHER name a lookup in the library's namespace could find -- is unknown
+    from unit_scaling import constraints as K
+
+    valid = {"gmean", "hmean", "amean", "to_output_scale", "to_grad_input_scale", "to_left_grad_scale", "to_right_grad_scale"}
+    unknown = sorted({n for n in dir(K) if n not in valid} | {"bogus_name", "Gmean", "gmean ", "pow", "max", "sum"})
+    for name in unknown:
+        rep.case(("unknown_name", name))
+        for label, call in (("apply_constraint", lambda: K.apply_constraint(name, 2.0, 3.0)), ("gelu", lambda: U.gelu(torch.randn(3), constraint=name)),
+                            ("matmul", lambda: U.matmul(torch.randn(2, 3), torch.randn(3, 2), constraint=name))):
+            try:
+                call()
+                rep.violation(f"{label} accepted the unknown constraint name {name!r} (no error)", {"cfg": {"op": label}, "name": name, "unknown": True}, key=f"unknown_name_accepted:{label}")
+                break
+            except ValueError:
+                pass
+            except Exception as ex:
+                rep.violation(f"{label} with the unknown constraint name {name!r} raised {type(ex).__name__} instead of ValueError", {"cfg": {"op": label}, "name": name, "unknown": True}, key=f"unknown_name_wrong_error:{label}")
+                break
     residual_fixed_group(rep, rng, 10 if quick else 1000)
     scale_elementwise_cases(rep, rng, 12 if quick else 300)
     for cfg in base_cfgs(rng, 3 if quick else 250):
